@@ -4,16 +4,19 @@ import json
 import os
 V = os.path.dirname(os.path.dirname(os.path.abspath(__file__)))
 props = [json.loads(l) for l in open(os.path.join(V, 'properties.jsonl'))]
-TECH = ('machine-checked proof in Coq 8.16 (Rocq) over an executable Gallina model of the code; model tied to /repo/src on every run by '
-        'a fail-closed Python-ast translator (tables, guards, formulas) and by a differential correspondence run (extracted OCaml model vs '
-        'implementation on generated inputs); independent exact oracle searches for the failing input')
+TECH = ('machine-checked proof in Coq 8.16 (Rocq) over an executable Gallina model of the code; model tied to /repo/src on every run (a) by '
+        'fail-closed Python-ast translators that regenerate tables, formulas and function bodies (Gen/*.v), the regenerated definitions being '
+        'PROVED equal to the hand-written model functions the theorems are about, and (b) by a differential correspondence run (extracted OCaml '
+        'model, or vm_compute inside coqc, vs the implementation on generated inputs); an independent exact oracle searches for the failing input')
 CLAIMS = {
     'C01': ('full: soundness, completeness and uniqueness of the MNA system w.r.t. the circuit equations, reported directions, and "a valid '
-            'network never fails to solve" (completeness of the executable Gauss-Jordan, Theory/Gauss.v)'),
+            'network never fails to solve" (completeness of the executable Gauss-Jordan, Theory/Gauss.v); elements.py / network.py / label_mapping.py / '
+            'bias_point_analysis.py regenerated and proved equal to the model (C01c)'),
     'C02': ('full on the model: CircuitSpec of the transformed network <-> declarative PhasorSpec (jwL, 1/(jwC), A*cis(phi) iff within resolution), '
-            'RMS = peak/sqrt2, DC = real part at w=0; np.cos/np.sin/np.sqrt enter as oracle values'),
+            'RMS = peak/sqrt2, DC = real part at w=0; np.cos/np.sin/np.sqrt enter as oracle values; circuit.py and the DC/complex solution classes '
+            'regenerated and proved equal to the model (C02c; equal outcome class always, equal value for two-terminal loads)'),
     'C03': ('full: rename / permutation / reversal / re-grounding theorems about the model functions (any sort order), API corollaries; '
-            'state-space, transient and port-impedance paths through C06/C10/C12'),
+            'state-space and transient paths additionally by metamorphic pairs on the implementation (c03_circuit)'),
     'C04': ('full: scaling, zero and superposition (2-block and k-block) through the model of the library\'s own zeroing operations; stated on '
             'first->second flows'),
     'C05': ('full: Tellegen balance with the reporting conventions, sign theorems per element kind over an ordered field, peak/RMS/DC/time-domain forms'),
@@ -21,13 +24,15 @@ CLAIMS = {
             'deactivated network) including the deleted-rows case; symmetry, reference independence, series/parallel, jwL, 1/(jwC); Thevenin and Norton by '
             'uniqueness'),
     'C07': ('full: finite-table theorems over the regenerated Gen/Tables.v (no kind dropped, dispatch, keys read subset of keys written, guards, waveform '
-            'lookup) and C07_faithful (branch law <-> declarative component law for all 17 kinds), one branch per component, terminals, ground rule'),
+            'lookup) and C07_faithful (branch law <-> declarative component law for all 17 kinds), one branch per component, terminals, ground rule; '
+            'every translator function of transformers.py regenerated and proved equal to the model (C07c)'),
     'C08': ('partial: for all six waveforms and every phase the coefficients are proved to be the Fourier integrals of the translated time '
             'functions (Coquelicot; classical-reals axioms), a/b/c algebra and lookup; the mean-square/Parseval clause is stated, checked '
             'numerically, not proved'),
     'C09': ('partial: frequency list characterised exactly over any ordered field (sorted, duplicate-free, membership); KCL and superposition of the '
-            'time functions by linearity, two-sided spectrum; "each once within the resolution" is REFUTED on the model (known finding); binary64 '
-            'rounding of the list is compared, not modelled'),
+            'time functions by linearity, two-sided spectrum; "each once within the resolution" is REFUTED on the model (known finding); the same generic '
+            'list function instantiated at binary64 (primitive floats) is run bit for bit against circuit.py, with the carrier-independent membership '
+            'theorems (C09b); time/frequency-domain solution classes regenerated and proved equal to the model (C09c)'),
     'C10': ('full: executable model of state_space_matrices and all output rows; ss_augmented; for every s the outputs of C(sI-A)^-1B+D solve the phasor '
             'network and equal the solver\'s answer (uniqueness); DC gain; dimensions; source order'),
     'C11': ('full for the inequality x^T(WA+A^TW)x <= 0 and Re(lambda) <= 0 over an ordered field; the simulated-energy clause depends on '
@@ -37,15 +42,18 @@ CLAIMS = {
     'C13': ('partial: executable model of the wire closure, representatives, labelling (auto-numbering with the skip loop), ground and the per-class '
             'terminal swap, with Python\'s set iteration orders as PARAMETERS: closure = wire connectivity, labels injective on classes, order '
             'independence up to a renaming of unlabelled nodes, invariance under any injective point map (rotation, translation, rescaling), wire '
-            'subdivision and permutation of the symbol list; schemdraw geometry and 2-decimal rounding are runtime facts read from live drawings'),
+            'subdivision and permutation of the symbol list; schemdraw geometry and 2-decimal rounding are runtime facts read from live drawings; '
+            'DiagramParser / DiagramTranslator / CircuitComponentTranslators regenerated and proved equal to the model (C13c)'),
     'C14': ('partial: adapters modelled on top of the exact C18 formatting model: reverse = text of the negated value, real and Cartesian texts read '
             'back within half a unit of the p-th digit (C18\'s carry region kept as hypothesis), polar/sinusoid text shape, peak = sqrt2 x RMS, '
-            'sine reference = arg + pi/2, declarative route = direct adapter; angle texts and arrow geometry are inputs/unmodelled'),
+            'sine reference = arg + pi/2, declarative route = direct adapter; angle texts and arrow geometry are inputs/unmodelled; label texts compared as '
+            'strings with the model (fn 14); DiagramSolution / Display / solutions table regenerated and proved equal to the model (C14c)'),
     'C15': ('partial: data-path model (symbol record <-> JSON-like tree, constructor table, merge of circuit values, deg/sin flags): '
             'translate(load(save d)) = translate d for all drawings over the persistable kinds, for any number of cycles; declarative builder = '
-            'programmatic builder on a grid semantics; the schemdraw object graph and the json library are outside the model'),
+            'programmatic builder on a grid semantics; the schemdraw object graph and the json library are outside the model; constructed / saved / '
+            'reloaded symbols and translations compared with the model (fn 15); dump_load.py and the schematic.py tables regenerated and proved equal (C15c)'),
     'C16': ('full for solutions-to-solutions (open removal, contraction by induction over the loop, re-grounding), names-only, exemption list, '
-            'well-posedness preserved under wf; the no-wf variant is stated only'),
+            'well-posedness preserved under wf; the no-wf variant is stated only; all nine operations regenerated and proved equal to the model (C16c)'),
     'C17': ('full on the model: loaders are interpreters of the regenerated loader/constructor tables; every documented kind loads to exactly its '
             'element for all field values; notations agree; nested round trip for all trees (nested induction); no mutation (state-passing style)'),
     'C18': ('partial: exact integer/rational model of the whole rendering pipeline; text parses back exactly; half-unit accuracy outside the carry '
